@@ -36,32 +36,32 @@ BigL == LocalStr(BigD, BigT)
 SmallWFor(y) == IF y >= 1000 THEN WeekStr(Pad(1000, 4), 1) ELSE SmallW
 BigWFor(y) == IF y <= 9999 THEN WeekStr(Pad(9999, 4), 52) ELSE BigW
 WeekCases ==
-    {Probe(p, CalTWeek, WeekStr(YearStr(y), w), SmallWFor(y), BigWFor(y)) : p \in 1..3, y \in Years, w \in Weeks}
-    \cup {Probe(p, CalTWeek, WeekStr(YearStr(y), w), SmallW, BigW) : p \in 1..3, y \in RepYears, w \in Weeks}
-    \cup (IF Full THEN {AsMin(CalTWeek, WeekStr(YearStr(y), w), SmallWFor(y)) : y \in Years, w \in 0..54} ELSE {})
+    SetToSeq({Probe(p, CalTWeek, WeekStr(YearStr(y), w), SmallWFor(y), BigWFor(y)) : p \in 1..3, y \in Years, w \in Weeks})
+    \o SetToSeq({Probe(p, CalTWeek, WeekStr(YearStr(y), w), SmallW, BigW) : p \in 1..3, y \in RepYears, w \in Weeks})
+    \o (IF Full THEN SetToSeq({AsMin(CalTWeek, WeekStr(YearStr(y), w), SmallWFor(y)) : y \in Years, w \in 0..54}) ELSE <<>>)
 \* five-digit spellings of small years: 00999-W53 is year 999
-    \cup {AsVal(CalTWeek, WeekStr(Pad(y, 5), w), BigWFor(y)) : y \in {1, 4, 999, 2019, 2020, 9999}, w \in Weeks}
+    \o SetToSeq({AsVal(CalTWeek, WeekStr(Pad(y, 5), w), BigWFor(y)) : y \in {1, 4, 999, 2019, 2020, 9999}, w \in Weeks})
 
 DateCases ==
-    {AsMin(CalTDate, DateStr(YearStr(y), 2, dd), SmallD) : y \in Years, dd \in {28, 29, 30}}
-    \cup {Probe(p, CalTDate, DateStr(YearStr(y), m, dd), SmallD, BigD) : p \in 1..3, y \in RepYears, m \in MonthsG, dd \in DaysG}
-    \cup (IF Full THEN {AsVal(CalTDate, DateStr(YearStr(y), m, dd), BigD) : y \in Years, m \in 1..12, dd \in {0, 1, 28, 29, 30, 31, 32}} ELSE {})
-    \cup {AsMax(CalTDate, DateStr(YearStr(2021), m, dd), BigD) : m \in 0..13, dd \in 0..32}
+    SetToSeq({AsMin(CalTDate, DateStr(YearStr(y), 2, dd), SmallD) : y \in Years, dd \in {28, 29, 30}})
+    \o SetToSeq({Probe(p, CalTDate, DateStr(YearStr(y), m, dd), SmallD, BigD) : p \in 1..3, y \in RepYears, m \in MonthsG, dd \in DaysG})
+    \o (IF Full THEN SetToSeq({AsVal(CalTDate, DateStr(YearStr(y), m, dd), BigD) : y \in Years, m \in 1..12, dd \in {0, 1, 28, 29, 30, 31, 32}}) ELSE <<>>)
+    \o SetToSeq({AsMax(CalTDate, DateStr(YearStr(2021), m, dd), BigD) : m \in 0..13, dd \in 0..32})
 
 MonthCases ==
-    {Probe(p, CalTMonth, MonthStr(YearStr(y), m), SmallM, BigM) : p \in 1..3, y \in RepYears, m \in MonthsG}
-    \cup {AsVal(CalTMonth, MonthStr(YearStr(y), 12), BigM) : y \in Years}
-    \cup {AsMin(CalTMonth, MonthStr(YearStr(2020), m), SmallM) : m \in 0..13}
+    SetToSeq({Probe(p, CalTMonth, MonthStr(YearStr(y), m), SmallM, BigM) : p \in 1..3, y \in RepYears, m \in MonthsG})
+    \o SetToSeq({AsVal(CalTMonth, MonthStr(YearStr(y), 12), BigM) : y \in Years})
+    \o SetToSeq({AsMin(CalTMonth, MonthStr(YearStr(2020), m), SmallM) : m \in 0..13})
 
 TimeStrs == {TimeStr(h, mi) : h \in Hours \cup {9, 12}, mi \in Minutes \cup {5, 30}}
-TimeCases == {Probe(p, CalTTime, s, SmallT, BigT) : p \in 1..3, s \in TimeStrs}
-             \cup {AsVal(CalTTime, TimeStr(h, mi), BigT) : h \in 0..25, mi \in {0, 59, 60, 99}}
-             \cup {AsMin(CalTTime, TimeStr(h, mi), SmallT) : h \in {0, 23, 24, 99}, mi \in 0..61}
+TimeCases == SetToSeq({Probe(p, CalTTime, s, SmallT, BigT) : p \in 1..3, s \in TimeStrs})
+             \o SetToSeq({AsVal(CalTTime, TimeStr(h, mi), BigT) : h \in 0..25, mi \in {0, 59, 60, 99}})
+             \o SetToSeq({AsMin(CalTTime, TimeStr(h, mi), SmallT) : h \in {0, 23, 24, 99}, mi \in 0..61})
 
 LocalDates == {DateStr(YearStr(2020), 2, 29), DateStr(YearStr(2019), 2, 29), DateStr(YearStr(2020), 13, 1),
                DateStr(YearStr(2020), 4, 30), DateStr(YearStr(2020), 4, 31), DateStr(YearStr(1), 1, 1),
                DateStr(YearStr(10000), 12, 31), DateStr(YearStr(1900), 2, 29), DateStr(YearStr(2000), 2, 29)}
-LocalCases == {Probe(p, CalTLocal, LocalStr(ds, TimeStr(h, mi)), SmallL, BigL) : p \in 1..3, ds \in LocalDates, h \in Hours, mi \in Minutes}
+LocalCases == SetToSeq({Probe(p, CalTLocal, LocalStr(ds, TimeStr(h, mi)), SmallL, BigL) : p \in 1..3, ds \in LocalDates, h \in Hours, mi \in Minutes})
 
 \* malformed shapes: all single-character mutations of these seeds (3-digit year, missing zero
 \* padding, trailing and leading junk, wrong separators, lower-case t / w, foreign digits ..),
@@ -76,22 +76,22 @@ SecsF == <<58, 51, 48, 46, 53>>        \* :30.5
 Wider(t, s, small, big) == {Probe(p, t, s \o x, small, big) : p \in 1..3, x \in {Secs, SecsF, <<58, 54, 48>>}}     \* :60 is no second
 OddYears == {Pad(999, 3), Pad(0, 4), Pad(0, 5), Pad(1, 3), Pad(2020, 5), Pad(1, 7), <<>>}
 MalCases ==
-    {Probe(p, CalTDate, s, SmallD, BigD) : p \in 1..3, s \in Mutants(SeedD, Junk) \cup {<<>>, SeedM, SeedW, SeedT, SeedL}}
-    \cup {Probe(p, CalTMonth, s, SmallM, BigM) : p \in 1..3, s \in Mutants(SeedM, Junk) \cup {<<>>, SeedD, SeedW, SeedT}}
-    \cup {Probe(p, CalTWeek, s, SmallW, BigW) : p \in 1..3, s \in Mutants(SeedW, Junk) \cup {<<>>, SeedD, SeedM, SeedT}}
-    \cup {Probe(p, CalTTime, s, SmallT, BigT) : p \in 1..3, s \in Mutants(SeedT, Junk) \cup {<<>>, SeedD, SeedL, <<49,50,51,48>>}}
-    \cup {Probe(p, CalTLocal, s, SmallL, BigL) : p \in 1..3, s \in Mutants(SeedL, Junk) \cup {<<>>, SeedD, SeedT}}
-    \cup Wider(CalTTime, TimeStr(12, 30), SmallT, BigT)
-    \cup Wider(CalTLocal, LocalStr(SeedD, TimeStr(12, 30)), SmallL, BigL)
+    SetToSeq({Probe(p, CalTDate, s, SmallD, BigD) : p \in 1..3, s \in Mutants(SeedD, Junk) \cup {<<>>, SeedM, SeedW, SeedT, SeedL}})
+    \o SetToSeq({Probe(p, CalTMonth, s, SmallM, BigM) : p \in 1..3, s \in Mutants(SeedM, Junk) \cup {<<>>, SeedD, SeedW, SeedT}})
+    \o SetToSeq({Probe(p, CalTWeek, s, SmallWFor(2020), BigWFor(2020)) : p \in 1..3, s \in Mutants(SeedW, Junk) \cup {<<>>, SeedD, SeedM, SeedT}})
+    \o SetToSeq({Probe(p, CalTTime, s, SmallT, BigT) : p \in 1..3, s \in Mutants(SeedT, Junk) \cup {<<>>, SeedD, SeedL, <<49,50,51,48>>}})
+    \o SetToSeq({Probe(p, CalTLocal, s, SmallL, BigL) : p \in 1..3, s \in Mutants(SeedL, Junk) \cup {<<>>, SeedD, SeedT}})
+    \o SetToSeq(Wider(CalTTime, TimeStr(12, 30), SmallT, BigT))
+    \o SetToSeq(Wider(CalTLocal, LocalStr(SeedD, TimeStr(12, 30)), SmallL, BigL))
 \* three-digit and zero years in every type
-    \cup {Probe(p, CalTDate, DateStr(ys, 1, 1), SmallD, BigD) : p \in 1..3, ys \in OddYears}
-    \cup {Probe(p, CalTMonth, MonthStr(ys, 1), SmallM, BigM) : p \in 1..3, ys \in OddYears}
-    \cup {Probe(p, CalTWeek, WeekStr(ys, 1), SmallW, BigW) : p \in 1..3, ys \in OddYears}
-    \cup {Probe(p, CalTLocal, LocalStr(DateStr(ys, 1, 1), SmallT), SmallL, BigL) : p \in 1..3, ys \in OddYears}
+    \o SetToSeq({Probe(p, CalTDate, DateStr(ys, 1, 1), SmallD, BigD) : p \in 1..3, ys \in OddYears})
+    \o SetToSeq({Probe(p, CalTMonth, MonthStr(ys, 1), SmallM, BigM) : p \in 1..3, ys \in OddYears})
+    \o SetToSeq({Probe(p, CalTWeek, WeekStr(ys, 1), SmallW, BigW) : p \in 1..3, ys \in OddYears})
+    \o SetToSeq({Probe(p, CalTLocal, LocalStr(DateStr(ys, 1, 1), SmallT), SmallL, BigL) : p \in 1..3, ys \in OddYears})
 
-\* (concatenation, not union: normalising one large set of element records is slow in TLC)
-Cases == SetToSeq(WeekCases) \o SetToSeq(DateCases) \o SetToSeq(MonthCases) \o SetToSeq(TimeCases)
-         \o SetToSeq(LocalCases) \o SetToSeq(MalCases)
+\* (families are sequences, concatenated: normalising one large set of element records, or a union of
+\* several, is slow in TLC; a case that occurs in two families is simply enumerated twice)
+Cases == WeekCases \o DateCases \o MonthCases \o TimeCases \o LocalCases \o MalCases
 NB == NumBatches(Len(Cases), BatchSize)
 ASSUME PrintT(<<"cases", Len(Cases), "batches", NB>>)
 
